@@ -148,6 +148,11 @@ def eval_gev(rp, rng=None):
         ws = get_gev_vector(Px[ix], Pn[ix], use_eig=use_eig)
         if relerr(outer(ws), outer(w[ix])) > 1e-7:
             return 'stacked result differs from the per-problem result at %s' % (ix,), 'gev:stack', None, None
+    f = core.container_variants(lambda x_, n_: get_gev_vector(x_, n_, use_eig=use_eig), [Px, Pn], w,
+                                lambda r, e: np.shape(r) == np.shape(e) and relerr(outer(np.asarray(r)), outer(e)) <= 1e-6,
+                                which=('stale',))
+    if f:
+        return 'get_gev_vector: ' + f, 'gev:container', None, None
     return None, None, _coq_gev(Px, Pn, w, use_eig, rng), None
 
 
@@ -232,6 +237,12 @@ def eval_pca(rp, rng=None):
             ws = get_pca_vector(Phi[ix], scaling=sc)
             if relerr(outer(ws), outer(out[sc][ix])) > 1e-8:
                 return 'stacked result differs from the per-problem result at %s' % (ix,), 'pca:stack', None, None
+    for sc in (None, 'trace', 'eigenvalue'):
+        f = core.container_variants(lambda p_: get_pca_vector(p_, scaling=sc), [Phi], out[sc],
+                                    lambda r, e: np.shape(r) == np.shape(e) and relerr(outer(np.asarray(r)), outer(e)) <= 1e-7,
+                                    which=('stale',))
+        if f:
+            return 'get_pca_vector(scaling=%r): %s' % (sc, f), 'pca:container', None, None
     return None, None, _coq_pca(Phi, out, rng), None
 
 
@@ -310,6 +321,11 @@ def eval_rank1(rp, rng=None):
         Rs = bw.get_pca_rank_one_estimate(cov[ix], **kw) if which == 'pca' else bw.get_gev_rank_one_estimate(cov[ix], Pn[ix], **kw)
         if relerr(Rs, R[ix]) > 1e-7:
             return 'stacked result differs from the per-problem result at %s' % (ix,), 'rank1:stack', None, None
+    f = core.container_variants(lambda c_, n_: (bw.get_pca_rank_one_estimate(c_, **kw) if which == 'pca'
+                                                 else bw.get_gev_rank_one_estimate(c_, n_, **kw)), [cov, Pn], R,
+                                lambda r, e: np.shape(r) == np.shape(e) and relerr(np.asarray(r), e) <= 1e-6, which=('stale',))
+    if f:
+        return 'rank-one estimate (%s): %s' % (which, f), 'rank1:container', None, None
     return None, None, _coq_rank1(cov, Pn, a, wg, R, rng), None
 
 
@@ -381,6 +397,10 @@ def eval_ban(rp, rng=None):
     for ix in pick_bins(np.random.default_rng(5), list(np.ndindex(*lead)), 2):
         if relerr(ban(w[ix], Pn[ix]), out[ix]) > 1e-9 and np.abs(out[ix]).max() > 0:
             return 'stacked result differs from the per-problem result at %s' % (ix,), 'ban:stack', None, None
+    f = core.container_variants(lambda w_, n_: ban(w_, n_), [w, Pn], out,
+                                lambda r, e: np.shape(r) == np.shape(e) and relerr(np.asarray(r), e) <= 1e-8, which=('stale',))
+    if f:
+        return 'blind_analytic_normalization: ' + f, 'ban:container', None, None
     return None, None, _coq_ban(Pn, wc, out, rng), None
 
 
